@@ -145,6 +145,11 @@ func c19raw(x *mc.X, seq []c19msg, alternate bool, slots int) {
 	// sent"; a receive is only attempted for a message that was sent, so it finds the message queued and the long
 	// deadline matters only when something is really missing — no verdict depends on a short wall-clock bound
 	b.SetReadDeadline(time.Now().Add(20 * time.Second))
+	type c19held struct {
+		i          int
+		cred, want *syscall.Ucred
+	}
+	var held []c19held
 	sent := make([]bool, len(seq))
 	sendErr := make([]error, len(seq))
 	outcome := ""
@@ -205,7 +210,21 @@ func c19raw(x *mc.X, seq []c19msg, alternate bool, slots int) {
 				x.Failf(key("credentials"), "%s: credentials %+v delivered, %+v sent", ctx, msg.Cred, want)
 			}
 		}
+		// a delivered message stays what it was: the receiver may still hold the previous message (payload copy and
+		// credentials) when it receives the next one — or fails to
+		held = append(held, c19held{i: i, cred: msg.Cred, want: c19cred(m.cred)})
 	}
+	recheckHeld := func(after string) {
+		for _, h := range held {
+			if h.want == nil || h.cred == nil {
+				continue
+			}
+			if h.cred.Uid != h.want.Uid || h.cred.Gid != h.want.Gid || h.cred.Pid != h.want.Pid {
+				x.Failf("C19/raw/credentials-changed-after-delivery", "sequence %v: the credentials delivered with message %d read %+v %s, they were %+v when delivered", names, h.i, *h.cred, after, *h.want)
+			}
+		}
+	}
+	_ = recheckHeld
 	sendOne := func(i int) {
 		m := seq[i]
 		var fds []int
@@ -226,6 +245,7 @@ func c19raw(x *mc.X, seq []c19msg, alternate bool, slots int) {
 		for i := range seq {
 			sendOne(i)
 			recvOne(i)
+			recheckHeld(fmt.Sprintf("after the receive of message %d", i))
 		}
 	} else {
 		for i := range seq {
@@ -233,6 +253,7 @@ func c19raw(x *mc.X, seq []c19msg, alternate bool, slots int) {
 		}
 		for i := range seq {
 			recvOne(i)
+			recheckHeld(fmt.Sprintf("after the receive of message %d", i))
 		}
 	}
 	a.Close()
